@@ -249,5 +249,5 @@ fn matrix(_: crate::engine::Tier) -> Vec<LoopCase> {
 
 fn groups(g: &mut Groups) {
     g.enumerate("matrix", matrix, true, check_case);
-    g.prop("random", 48_000, 400_000, || case(), check_case);
+    g.prop("random", 48_000, 4_000_000, || case(), check_case);
 }
